@@ -65,6 +65,11 @@ func DeserializeEncrypted(data, authKey []byte) (*Encrypted, error) {
 		return nil, err
 	}
 	keyHash := d.PopRawBytes(tl.LongLen)
+	if len(authKey) == 0 {
+		// session has no key yet (key exchange is not finished), so nothing encrypted can be addressed to it.
+		// otherwise a packet which carries hash of empty key goes further and key derivation panics
+		return nil, errors.New("got encrypted message, but session has no auth key yet")
+	}
 	if !bytes.Equal(keyHash, utils.AuthKeyHash(authKey)) {
 		return nil, errors.New("wrong encryption key")
 	}
